@@ -502,18 +502,29 @@ func ruleC14Status(cx *Ctx) {
 	{
 		name := funcName(saw)
 		isSDB := func(x ssa.Instruction) bool { return isCallTo(x, sdb) }
+		// tier 2 (computed lazily): the same clauses on the path summaries, for a machine that was reshaped
+		var tier2 map[string]bool
+		t2 := func(key string) bool {
+			if tier2 == nil {
+				tier2 = sawPathTier(cx, saw, st)
+			}
+			return tier2[key]
+		}
+		check := func(ok bool, key, text string) {
+			cx.R.Check(ok || t2(key), rule, name, key, cx.P.Pos(saw.Pos()), text)
+		}
 		for _, sv := range statuses {
 			g := specialise(saw, ds, sv.k)
-			cx.R.Check(!g.reaches(func(in ssa.Instruction) bool { _, ok := in.(*ssa.Panic); return ok }, nil, nil), rule, name, "status "+sv.name+" handled", cx.P.Pos(saw.Pos()), "a valid drain status never reaches the invalid-status panic")
+			check(!g.reaches(func(in ssa.Instruction) bool { _, ok := in.(*ssa.Panic); return ok }, nil, nil), "status "+sv.name+" handled", "a valid drain status never reaches the invalid-status panic")
 			isRet := func(in ssa.Instruction) bool { _, ok := in.(*ssa.Return); return ok }
 			switch sv.k {
 			case st.idle:
 				ok := g.reaches(isRet, nil, nil) &&
 					!g.reaches(isRet, func(in ssa.Instruction) bool { return isCASConst(in, ds, st.idle, st.required) }, nil) &&
 					!g.reaches(isRet, isSDB, nil)
-				cx.R.Check(ok, rule, name, "case idle", cx.P.Pos(saw.Pos()), "idle: CAS(idle->required) and scheduleDrainBuffers before returning")
+				check(ok, "case idle", "idle: CAS(idle->required) and scheduleDrainBuffers before returning")
 			case st.required:
-				cx.R.Check(g.reaches(isRet, nil, nil) && !g.reaches(isRet, isSDB, nil), rule, name, "case required", cx.P.Pos(saw.Pos()), "required: scheduleDrainBuffers before returning")
+				check(g.reaches(isRet, nil, nil) && !g.reaches(isRet, isSDB, nil), "case required", "required: scheduleDrainBuffers before returning")
 			case st.pToIdle:
 				// no return without winning CAS(processingToIdle->processingToRequired): cut the success edges
 				cut := map[edge]bool{}
@@ -526,9 +537,9 @@ func ruleC14Status(cx *Ctx) {
 						}
 					}
 				})
-				cx.R.Check(hasCAS && g.reaches(isRet, nil, nil) && !g.reaches(isRet, nil, cut), rule, name, "case processingToIdle", cx.P.Pos(saw.Pos()), "processingToIdle: return only on the success edge of CAS(processingToIdle->processingToRequired); otherwise retry")
+				check(hasCAS && g.reaches(isRet, nil, nil) && !g.reaches(isRet, nil, cut), "case processingToIdle", "processingToIdle: return only on the success edge of CAS(processingToIdle->processingToRequired); otherwise retry")
 			case st.pToRequired:
-				cx.R.Check(g.reaches(isRet, nil, nil), rule, name, "case processingToRequired", cx.P.Pos(saw.Pos()), "processingToRequired: the running maintenance will see it")
+				check(g.reaches(isRet, nil, nil), "case processingToRequired", "processingToRequired: the running maintenance will see it")
 			}
 		}
 	}
